@@ -872,8 +872,9 @@ func (te *TemplateEngine) cloneDocument(source *Document) *Document {
 			doc.Body.Elements = append(doc.Body.Elements, clonedSectPr)
 
 		default:
-			// 其他类型暂时直接复制引用
-			doc.Body.Elements = append(doc.Body.Elements, element)
+			// 内容控件、书签、公式段落同样要深拷贝：按引用共享时，
+			// 修改一份渲染结果（例如更新目录）会改到模板和其它渲染结果
+			doc.Body.Elements = append(doc.Body.Elements, te.cloneOtherElement(element))
 		}
 	}
 
@@ -915,6 +916,96 @@ func (te *TemplateEngine) cloneDocument(source *Document) *Document {
 	doc.nextImageID = source.nextImageID
 
 	return doc
+}
+
+// cloneOtherElement 深拷贝段落、表格、节属性以外的主体元素（也用于内容控件的内容）
+func (te *TemplateEngine) cloneOtherElement(element interface{}) interface{} {
+	switch elem := element.(type) {
+	case *Paragraph:
+		return te.cloneParagraph(elem)
+	case *Table:
+		return te.cloneTable(elem)
+	case *SDT:
+		return te.cloneSDT(elem)
+	case Run:
+		return te.cloneRun(&elem)
+	case *BookmarkStart:
+		bookmark := *elem
+		return &bookmark
+	case *BookmarkEnd:
+		bookmark := *elem
+		return &bookmark
+	case *MathParagraph:
+		math := &MathParagraph{
+			XMLName:    elem.XMLName,
+			Properties: te.cloneParagraphProperties(elem.Properties),
+		}
+		if elem.Math != nil {
+			m := *elem.Math
+			math.Math = &m
+		}
+		if elem.MathPara != nil {
+			mp := *elem.MathPara
+			if mp.Math != nil {
+				m := *mp.Math
+				mp.Math = &m
+			}
+			math.MathPara = &mp
+		}
+		for i := range elem.Runs {
+			math.Runs = append(math.Runs, te.cloneRun(&elem.Runs[i]))
+		}
+		return math
+	}
+	return element
+}
+
+// cloneSDT 深度复制内容控件（目录等）
+func (te *TemplateEngine) cloneSDT(source *SDT) *SDT {
+	sdt := &SDT{XMLName: source.XMLName, tocMaxLevel: source.tocMaxLevel}
+	if source.Properties != nil {
+		props := *source.Properties
+		props.RunPr = te.cloneRunProperties(source.Properties.RunPr)
+		if props.ID != nil {
+			id := *props.ID
+			props.ID = &id
+		}
+		if props.Color != nil {
+			color := *props.Color
+			props.Color = &color
+		}
+		if props.DocPartObj != nil {
+			obj := *props.DocPartObj
+			if obj.DocPartGallery != nil {
+				gallery := *obj.DocPartGallery
+				obj.DocPartGallery = &gallery
+			}
+			if obj.DocPartUnique != nil {
+				unique := *obj.DocPartUnique
+				obj.DocPartUnique = &unique
+			}
+			props.DocPartObj = &obj
+		}
+		if props.Placeholder != nil {
+			placeholder := *props.Placeholder
+			if placeholder.DocPart != nil {
+				part := *placeholder.DocPart
+				placeholder.DocPart = &part
+			}
+			props.Placeholder = &placeholder
+		}
+		sdt.Properties = &props
+	}
+	if source.EndPr != nil {
+		sdt.EndPr = &SDTEndPr{XMLName: source.EndPr.XMLName, RunPr: te.cloneRunProperties(source.EndPr.RunPr)}
+	}
+	if source.Content != nil {
+		sdt.Content = &SDTContent{XMLName: source.Content.XMLName}
+		for _, element := range source.Content.Elements {
+			sdt.Content.Elements = append(sdt.Content.Elements, te.cloneOtherElement(element))
+		}
+	}
+	return sdt
 }
 
 // cloneAllDocumentParts 复制所有文档部件，确保完整保留原文档结构
